@@ -18,9 +18,9 @@ package c18
 import (
 	"errors"
 	"fmt"
-	"time"
 	"sort"
 	"strings"
+	"time"
 
 	acrakeys "github.com/cossacklabs/acra/cmd/acra-keys/keys"
 	"github.com/cossacklabs/acra/keystore"
